@@ -12,6 +12,7 @@ import (
 	"hash"
 
 	"github.com/celestiaorg/celestia-app/v9/pkg/appconsts"
+	"github.com/celestiaorg/celestia-app/v9/pkg/wrapper"
 	libshare "github.com/celestiaorg/go-square/v4/share"
 	"github.com/celestiaorg/rsmt2d"
 
@@ -204,6 +205,63 @@ func verifSymShare(ns libshare.Namespace, tag string) libshare.Share {
 	sh, err := libshare.NewShare(raw)
 	nd.Assume(err == nil)
 	return sh
+}
+
+// exported for harnesses of other packages (store/file: C05)
+func VerifModelReset()                                        { verifReset() }
+func VerifModelEncode(data [][]byte) ([][]byte, error)        { return verifCodec{}.Encode(data) }
+func VerifModelShare(ns libshare.Namespace, tag string) libshare.Share { return verifSymShare(ns, tag) }
+
+// VerifModelSquare builds a committed 2k x 2k EDS over the ideal codec: the
+// first `filled` ODS cells (row-major) carry symbolic payload in ns, the rest
+// is tail padding; Q2 = parity of the ODS rows, Q3 = parity of the ODS
+// columns, Q4 = parity of the Q3 rows. Needs rsmt2d loaded from source.
+func VerifModelSquare(k, filled int, ns libshare.Namespace) ([][]libshare.Share, *rsmt2d.ExtendedDataSquare) {
+	cells := make([][]libshare.Share, 2*k)
+	for r := range cells {
+		cells[r] = make([]libshare.Share, 2*k)
+	}
+	n := 0
+	for r := 0; r < k; r++ {
+		for c := 0; c < k; c++ {
+			if n < filled {
+				cells[r][c] = verifSymShare(ns, "ods")
+			} else {
+				cells[r][c] = libshare.TailPaddingShare()
+			}
+			n++
+		}
+	}
+	enc := func(in []libshare.Share) []libshare.Share {
+		par, err := verifCodec{}.Encode(libshare.ToBytes(in))
+		nd.Assume(err == nil)
+		out, err := libshare.FromBytes(par)
+		nd.Assume(err == nil)
+		return out
+	}
+	for r := 0; r < k; r++ {
+		copy(cells[r][k:], enc(cells[r][:k]))
+	}
+	for c := 0; c < k; c++ {
+		col := make([]libshare.Share, k)
+		for r := 0; r < k; r++ {
+			col[r] = cells[r][c]
+		}
+		for r, s := range enc(col) {
+			cells[k+r][c] = s
+		}
+	}
+	for r := k; r < 2*k; r++ {
+		copy(cells[r][k:], enc(cells[r][:k]))
+	}
+	var flat [][]byte
+	for r := range cells {
+		flat = append(flat, libshare.ToBytes(cells[r])...)
+	}
+	share.DefaultRSMT2DCodec = rsmt2d.NewLeoRSCodec
+	sq, err := rsmt2d.ImportExtendedDataSquare(flat, share.DefaultRSMT2DCodec(), wrapper.NewConstructor(uint64(k)))
+	nd.Assume(err == nil)
+	return cells, sq
 }
 
 // an honest w x w ODS in one namespace with symbolic contents, and the row
